@@ -87,4 +87,151 @@ def field (path : Path) : Field → Out
 
 end Spec
 
+/-! ### The response data, the `Set`s that are right, the slots that must be set -/
+
+/-- `Set(i, key, v)` on the result map of the object at `mp`. -/
+structure Write where
+  mp : Path
+  i : Nat
+  key : String
+  v : Val
+
+/-- A slot of a result map. -/
+abbrev Cell := Path × Nat
+
+namespace Spec
+
+/-- Is this field completed beneath (resolver-backed, no resolver error)? -/
+def descends (mode : Mode) (rerr : Option String) : Bool :=
+  match mode, rerr with
+  | .tname, _ => false
+  | _, some _ => false
+  | _, none => true
+
+mutual
+  /-- JSON text of the completed value of plan `c` at `path` (meaningful when `comp _ c path` is ok). -/
+  def jsonC (c : Comp) (path : Path) : String :=
+    match c with
+    | .null => "null"
+    | .scalar s => s
+    | .bad _ => "null"
+    | .list inn cs => "[" ++ ",".intercalate (jsonL inn cs path 0) ++ "]"
+    | .object fs => "{" ++ ",".intercalate (jsonF fs path) ++ "}"
+  /-- List items: a failed item of a nullable element type is null. -/
+  def jsonL (inn : Bool) (cs : List Comp) (path : Path) (i : Nat) : List String :=
+    match cs with
+    | [] => []
+    | c :: rest =>
+      (if (comp inn c (path ++ [.idx i])).isOk then jsonC c (path ++ [.idx i]) else "null") :: jsonL inn rest path (i + 1)
+  /-- Object members `"key":value` in selection-set order. -/
+  def jsonF (fs : List Field) (path : Path) : List String :=
+    match fs with
+    | [] => []
+    | .mk key nn mode rerr c :: rest =>
+      (quote key ++ ":" ++
+        (match mode with
+         | .tname => (match tnameVal c with | .scalar s => s | _ => "null")
+         | _ =>
+           match rerr with
+           | some _ => "null"
+           | none => if (comp nn c (path ++ [.key key])).isOk then jsonC c (path ++ [.key key]) else "null"))
+      :: jsonF rest path
+end
+
+mutual
+  /-- Every `Set` that is right for the sub-response of plan `c` at `path`: slot `i` of the object
+      at `mp` gets the field's key and its reference value. -/
+  def writesC (c : Comp) (path : Path) : List Write :=
+    match c with
+    | .list _ cs => writesL cs path 0
+    | .object fs => writesF fs path 0
+    | _ => []
+  def writesL (cs : List Comp) (path : Path) (i : Nat) : List Write :=
+    match cs with
+    | [] => []
+    | c :: rest => writesC c (path ++ [.idx i]) ++ writesL rest path (i + 1)
+  def writesF (fs : List Field) (path : Path) (i : Nat) : List Write :=
+    match fs with
+    | [] => []
+    | .mk key nn mode rerr c :: rest =>
+      (match Spec.field path (.mk key nn mode rerr c) with
+       | .ok v => [⟨path, i, key, v⟩]
+       | .fail => []) ++
+      (if descends mode rerr then writesC c (path ++ [.key key]) else []) ++
+      writesF rest path (i + 1)
+end
+
+mutual
+  /-- The slots that must have been set for the value of plan `c` at `path` to be complete:
+      every slot of every object that is visible in the data. -/
+  def cellsC (nn : Bool) (c : Comp) (path : Path) : List Cell :=
+    if (comp nn c path).isOk then
+      match c with
+      | .list inn cs => cellsL inn cs path 0
+      | .object fs => cellsF fs path 0
+      | _ => []
+    else []
+  def cellsL (inn : Bool) (cs : List Comp) (path : Path) (i : Nat) : List Cell :=
+    match cs with
+    | [] => []
+    | c :: rest => cellsC inn c (path ++ [.idx i]) ++ cellsL inn rest path (i + 1)
+  def cellsF (fs : List Field) (path : Path) (i : Nat) : List Cell :=
+    match fs with
+    | [] => []
+    | .mk key nn mode rerr c :: rest =>
+      (path, i) :: ((if descends mode rerr then cellsC nn c (path ++ [.key key]) else []) ++ cellsF rest path (i + 1))
+end
+
+/-- The data of a request: the root object's JSON, or null. -/
+def data (rq : Request) : String :=
+  if fieldsOk rq.fields [] then "{" ++ ",".intercalate (jsonF rq.fields []) ++ "}" else "null"
+
+end Spec
+
+mutual
+  /-- Response keys within every selection set are pairwise distinct (validation + collectFields
+      guarantee it); without it two sibling objects would share a response path. -/
+  def Comp.distinctKeys : Comp → Bool
+    | .list _ cs => Comp.distinctKeysL cs
+    | .object fs => Field.distinctKeysL fs
+    | _ => true
+  def Comp.distinctKeysL : List Comp → Bool
+    | [] => true
+    | c :: cs => c.distinctKeys && Comp.distinctKeysL cs
+  def Field.distinctKeysL : List Field → Bool
+    | [] => true
+    | .mk key _ _ _ c :: rest =>
+      !(Field.keysL rest).contains key && c.distinctKeys && Field.distinctKeysL rest
+  def Field.keysL : List Field → List String
+    | [] => []
+    | .mk key _ _ _ _ :: rest => key :: Field.keysL rest
+end
+
+/-! The all-synchronous counterpart of a plan: same selection sets, same resolver outcomes, every
+    resolver answers directly. -/
+
+def Mode.toSync : Mode → Mode
+  | .tname => .tname
+  | _ => .sync
+
+mutual
+  def Comp.allSync : Comp → Comp
+    | .list inn cs => .list inn (Comp.allSyncL cs)
+    | .object fs => .object (Field.allSyncL fs)
+    | .null => .null
+    | .scalar s => .scalar s
+    | .bad m => .bad m
+  def Comp.allSyncL : List Comp → List Comp
+    | [] => []
+    | c :: cs => c.allSync :: Comp.allSyncL cs
+  def Field.allSyncL : List Field → List Field
+    | [] => []
+    | .mk key nn mode rerr c :: rest => .mk key nn mode.toSync rerr c.allSync :: Field.allSyncL rest
+end
+
+/-- The same request with every resolver answering synchronously (and any schedule: it is never
+    consulted). -/
+def Request.allSync (rq : Request) (sched : List Nat) : Request :=
+  { mutation := rq.mutation, fields := Field.allSyncL rq.fields, sched := sched }
+
 end ApiFu.C02
